@@ -107,6 +107,17 @@ func init() {
 	props["C07"].Harnesses = append(props["C07"].Harnesses,
 		HarnessSpec{Name: "VH_C07_decrypt_cert", Replay: "native"},
 		HarnessSpec{Name: "VH_C07_recipient", Replay: "native", Panics: true})
+	retrieve := []HarnessSpec{
+		{Name: "VH_C08_retrieve", Replay: "native", Unwind: 400, Panics: true, QuickOnly: true},
+		{Name: "VH_C08_retrieve_deep", Replay: "native", Unwind: 400, Panics: true, Thorough: true},
+	}
+	reg(&PropSpec{ID: "C08", Harnesses: append(append([]HarnessSpec{{Name: "VH_C08_values", Replay: "native", Panics: true}}, retrieve...), sso...),
+		Bounds:  map[string]string{"quick": "RetrieveAssertionInfo / ValidateEncodedResponse over the SSO scenario space (0..2 children), one attribute with one value per assertion; accessor helpers on the resulting map with symbolic names", "thorough": "0..3 children"},
+		Outside: []string{"invariance under serialisation (comments, CDATA, character references, white space, canonicalisation variants, digest / signature algorithm support) is etree / encoding/xml / goxmldsig behaviour and is NOT decided here: the claim covers the repo-owned decoding, extraction and accessor logic over the decoded tree only"}})
+	for _, id := range []string{"C01", "C03", "C04", "C05", "C06", "C09"} {
+		props[id].Harnesses = append(props[id].Harnesses, retrieve...)
+	}
+	props["C12"].Harnesses = append(props["C12"].Harnesses, HarnessSpec{Name: "VH_C12_routing", Replay: "native", Unwind: 400})
 	rollover := HarnessSpec{Name: "VH_C02_store_rollover", Replay: "native", Unwind: 400}
 	logout := HarnessSpec{Name: "VH_C10_logout_post", Replay: "native", Unwind: 400}
 	for _, id := range []string{"C01", "C02", "C10"} {
